@@ -4,6 +4,7 @@ package main
 import (
 	"fmt"
 	"os"
+	"strings"
 
 	"mtverif/internal/core"
 	"mtverif/internal/e2"
@@ -38,4 +39,11 @@ func main() {
 		}
 	}
 	fmt.Printf("loops=%d ranked=%d\n", len(r.Loops), lok)
+	if len(os.Args) > 2 {
+		for f, ks := range r.Summaries {
+			if len(ks) > 0 && strings.Contains(f.String(), os.Args[2]) {
+				fmt.Printf("SUMMARY %s: %v\n", f, ks)
+			}
+		}
+	}
 }
